@@ -168,7 +168,8 @@ def main(tier):
     def seg_hits_box(a, b, c):      # closed segment a-b against the open 36x36 box around centre c
         lo = (min(a[0], b[0]), min(a[1], b[1])); hi = (max(a[0], b[0]), max(a[1], b[1]))
         return lo[0] < c[0] + 18 and hi[0] > c[0] - 18 and lo[1] < c[1] + 18 and hi[1] > c[1] - 18
-    for _ in range(400 if quick else 4000):
+    rnd_main, rnd = rnd, random.Random(20261005 if quick else 20261006)      # fixed seeds: the same family in every round
+    for _ in range(400 if quick else 2500):
         cells = [(40 * x, 40 * y) for x in range(6) for y in range(6)]
         nodes = rnd.sample(cells, rnd.randint(3, 7))
         edges, used, xs, ys = [], set(), [], []
@@ -199,6 +200,7 @@ def main(tier):
                     break
         if len(edges) >= 2:
             flines.append(fline(nodes, edges))
+    rnd = rnd_main
     pnontriv = 0
     for fam_name, fam_lines, fam_u in (('planar', plines, U), ('planarfine', flines, 2)):
         pt = os.path.join(d, fam_name + '.txt')
